@@ -19,7 +19,7 @@ PLAN  = {"quick":    {"shards": 16, "parallel": 8, "cases": 800,   "timeout": 15
 REQUIRED = ["oracle.triple==solo", "oracle.triple==solo.shared-learner", "oracle.permuted==solo", "oracle.failed-triple-has-no-rows",
             "oracle.failure-logged", "oracle.others-complete-despite-failure", "inject.predict", "inject.learn", "inject.read",
             "inject.evaluator", "inject.params", "oracle.multiproc.triple==solo", "oracle.solo-in-fresh-process",
-            "oracle.triple==solo.learner-is-logging-policy-elsewhere"]
+            "oracle.triple==solo.learner-is-logging-policy-elsewhere", "inject.exception-message=empty", "inject.exception-message=multiline"]
 ASSUMPTIONS = ["a learner listed in exactly one triple is trained in place by design; only rows are compared, never post-run learner state",
                "only picklable deterministic components; timing columns excluded"]
 
@@ -48,7 +48,13 @@ def gen_case(rng):
             if not cand:
                 spec["vals"][0]["kind"] = "rec"; cand = [0]
             faults["val"] = {str(rng.choice(cand)): ({"fail_params": True} if kind == "val-params" else {"fail_after": rng.choice([0, 1, 2])})}
-    return {"spec": spec, "faults": faults, "fault_kind": kind, "perm_seed": rng.randrange(1 << 30)}
+    # the shape of the exception: with a message, without one (bare `raise E` / `assert x`), several lines with format characters
+    style = random.Random(f"style/{faults!r}").choice([None, None, "empty", "multiline"])
+    if style and kind != "none":
+        for v in (faults.get("lrn") or {}).values(): v.append(style)
+        for v in (faults.get("env") or {}).values(): v.append(style)
+        for v in (faults.get("val") or {}).values(): v["fail_style"] = style
+    return {"spec": spec, "faults": faults, "fault_kind": kind, "perm_seed": rng.randrange(1 << 30), "style": style if kind != "none" else None}
 
 def _rows_by_triple(canon, idx):
     """canonical interaction rows grouped by listed triple index (ids are assigned by first appearance in listing order)"""
@@ -87,7 +93,8 @@ def check_case(case, ctx=None, workdir=None, use_mp=False):
     if ctx is not None: ctx.case(("inproc", pattern, fk, struct), nontrivial=bool(pattern))
     if fk in ("predict", "learn", "read", "evaluator"): note("inject." + fk)
     if fk.endswith("params"): note("inject.params")
-    feat = f"fault={fk}/shared={pattern or 'none'}"
+    feat = f"fault={fk}/shared={pattern or 'none'}" + (f"/exception-message={case['style']}" if case.get("style") else "")
+    if case.get("style") and fk != "none": note(f"inject.exception-message={case['style']}")
     solo, failed = {}, set()
     fresh = bool(use_mp and workdir)       # sampled cases: every solo reference comes from its own fresh interpreter ("pristine")
     for i in range(n):
